@@ -44,7 +44,8 @@ type Compiler struct {
 	varScopes       []map[string]string
 	currScope       *map[string]string
 	currModule      string
-	lambdaCount     uint
+	// Number of function literals compiled so far, per module (part of their names, which a program can print).
+	lambdaCount map[string]uint
 	// Root scope (globals, singletons and imported globals) of every module.
 	moduleScopes map[string]map[string]string
 	// Functions which a module imports from other Homescript modules: local name -> mangled function.
@@ -77,6 +78,7 @@ func NewCompiler(program map[string]ast.AnalyzedProgram, entryPointModule string
 		currScope:       currScope,
 		currModule:      "",
 		currFn:          "",
+		lambdaCount:     make(map[string]uint),
 		moduleScopes:    make(map[string]map[string]string),
 		importedFns:     make(map[string]map[string]string),
 		// Program source.
